@@ -169,11 +169,101 @@ def run_case(c):
     r.execute()
     return r
 
-_last = {}
+import json
 def impl(c):
     r = run_case(c)
-    _last['case'] = c; _last['run'] = r
-    return P.canonical(r)
+    return P.canonical(r) + ' #' + json.dumps(P.facts(r), sort_keys=True)
+
+def project(c, io):
+    return io.split(' #', 1)[0]
+
+def verdict_of(p, cls_index):
+    """what the predicate table says for an object of that class (None: not one of the program's classes)"""
+    return P.PRED_NONE[p] if cls_index is None else P.PREDS[p][cls_index]
+
+def oracle(c, io):
+    """the property statement, checked on the implementation's observations only"""
+    if ' #' not in io: return 'harness: ' + io[:200]
+    f = json.loads(io.split(' #', 1)[1])
+    op = c['op']
+    if op == 'sare':
+        mode = c['mode']
+        if mode == 'with':
+            if f['completed']:
+                if f['flag']:
+                    if not f['out_is_entry']: return 'body completed with reraise on, but what came out is not the exception active on entry (%s)' % io.split(' ')[0]
+                    if not f['entry_tb_kept']: return 'the re-raised exception lost the traceback of its original raise'
+                else:
+                    if not f['out_none']: return 'body completed with reraise off, but an exception was raised (%s)' % io.split(' ')[0]
+                if f['logs2']: return 'body completed, yet the original was logged as dropped'
+            else:
+                if not f['out_is_body_exc']: return 'the body raised, but what came out is not the exception the body raised (%s)' % io.split(' ')[0]
+                want = 1 if f['flag'] else 0
+                if f['logs2'] != want: return 'body raised with reraise %s: %d log calls, expected %d' % (f['flag'], f['logs2'], want)
+                if want and not all(f['log2_names_entry']): return 'the log entry does not show the original exception'
+        elif mode == 'noactive':
+            if not f['completed'] and f['flag'] is not None:
+                if not f['out_is_body_exc']: return 'the body raised, but what came out is not the exception the body raised'
+                want = 1 if f['flag'] else 0
+                if f['logs2'] != want: return 'body raised with reraise %s: %d log calls, expected %d' % (f['flag'], f['logs2'], want)
+        else:
+            if f['completed']:
+                if not f['out_is_entry']: return 'capture(); ...; force_reraise() did not raise the captured exception (%s)' % io.split(' ')[0]
+                if not f['entry_tb_kept']: return 'force_reraise() lost the traceback of the original raise'
+                if f['logs2']: return 'unexpected log call'
+    elif op == 'filter':
+        if f['completed']:
+            if not f['out_none']: return 'block completed but the filter raised'
+            if f['pred2_n']: return 'predicate consulted although nothing was raised'
+        else:
+            if f['pred2_n'] != 1 or not all(f['pred2']): return 'predicate not consulted exactly once with the exception the block raised'
+            v = verdict_of(c['p'], f['body_exc_class'])
+            if v == 1 and not f['out_none']: return 'predicate accepted the exception but it was not suppressed'
+            if v == 0 and not f['out_is_body_exc']: return 'predicate rejected the exception but it did not propagate as the same object'
+            if v == 2 and f['out_label'] != 1002: return 'predicate raised but its exception did not come out'
+    elif op == 'call':
+        if f['pred2_n'] != 1: return 'predicate not consulted exactly once'
+        v = verdict_of(c['p'], f['arg_class'])
+        if v == 1 and not f['out_none']: return 'predicate accepted the exception but the call raised'
+        if v == 0 and not f['arg_none']:
+            if not f['out_is_arg']: return 'predicate rejected the exception but the call did not raise that same object'
+            if f['arg_is_cur'] and not f['cur_tb_kept']: return 're-raised current exception lost its traceback'
+        if v == 0 and f['arg_none'] and f['out_none']: return 'predicate rejected None and nothing was raised'
+        if v == 2 and f['out_label'] != 1002: return 'predicate raised but its exception did not come out'
+    elif op == 'rpoe':
+        if f['completed']:
+            if not f['out_none'] or f['rm']: return 'block completed, yet path removed / exception raised'
+        elif f['body_exc_is_exception']:
+            if f['rm'] != 1: return 'block raised an Exception but the path was not removed exactly once (%d)' % f['rm']
+            if c['rm'] in (0, 1):
+                if not f['out_is_body_exc']: return 'the original exception was not re-raised after removing the path'
+                if f['logs9']: return 'original logged as dropped although it was re-raised'
+            else:
+                if f['out_label'] != 3000: return 'remove() raised but its exception did not propagate'
+                if f['logs9'] != 1 or not all(f['log9_names_body_exc']): return 'remove() raised: the original must be logged once'
+        else:
+            # BaseException that is not an Exception: not caught by the helper (observation, see notes); it must still
+            # come out unchanged
+            if not f['out_is_body_exc']: return 'a BaseException passing through remove_path_on_error was replaced'
+    elif op == 'cause':
+        if f['out_none'] or f['out_registered']: return 'raise_with_cause did not raise a new exception'
+        want_cls = ['CausedByException', 'CausedSub'][c['cc']]
+        if f['out_class'] != want_cls: return 'raise_with_cause raised %s' % f['out_class']
+        if c['given'] == 1:
+            if not (f['cause_is_given'] and f['dunder_is_given']): return 'explicit cause not used'
+        elif c['given'] == 2:
+            if not (f['cause_none'] and f['dunder_none']): return 'explicit cause=None not respected'
+        elif c['active']:
+            if not (f['cause_is_orig'] and f['dunder_is_orig']): return 'cause not taken from the active exception'
+        else:
+            if not (f['cause_none'] and f['dunder_none']): return 'a cause was invented'
+    return None
+
+def zone(c):
+    """K13: force_reraise()/capture() called on the context inside its own block (or more than once in the
+    capture/force protocol)"""
+    if c['op'] == 'sare' and has_direct0(c['body']): return 'K13'
+    return None
 
 def toks(b):
     t = b[0]
